@@ -19,7 +19,7 @@ ARRAY_ATTRS = ["vertices", "cells", "values", "octree_cells", "layers", "prisms"
 
 def all_subjects():
     subs = [("object", c) for c in F.OBJECT_CLASSES] + [("group", c) for c in F.GROUP_CLASSES]
-    subs += [("data", k) for k in DATA_KINDS] + [("dhgroup", "DrillholeGroup")]
+    subs += [("data", k) for k in DATA_KINDS] + [("dhgroup", "DrillholeGroup"), ("root", "RootGroup")]
     return subs
 
 
@@ -170,6 +170,10 @@ class C12(Check):
             self.build_object(ws, grp, "Points", p, name="pts")
             self.build_object(ws, sub, "Curve", p, name="crv")
             return home, grp
+        if kind == "root":
+            # the root group itself (the whole project) is a group entity too
+            self.build_object(ws, home, "Points", p, name="pts")
+            return ws.root, ws.root
         if kind == "data":
             host = Points.create(ws, parent=home, name="host", vertices=F.lattice(p["geom"]["g"], max(2, p["geom"]["n"])))
             count = host.n_vertices
@@ -222,6 +226,9 @@ class C12(Check):
                 res.label(f"build_failed:{cls}:{type(exc).__name__}")
                 return res
             cross = target == "ws2"
+            if kind == "root" and not cross:
+                res.label("root-copy-into-itself-skipped")
+                return res
             if program_mode_r(p):
                 # re-open the source read-only and fetch the subject again
                 uid0, home_uid = subject.uid, home.uid
@@ -277,8 +284,8 @@ class C12(Check):
             if type(new).__name__ != type(subject).__name__:
                 res.fail(f"C12/copy-class-differs/{tag}/{target}/", f"{type(subject).__name__} copied as {type(new).__name__}")
                 return res
-            if new.parent.uid != dest.uid:
-                res.fail(f"C12/copy-parent/{tag}/{target}/", f"copy is under {new.parent.uid}, asked {dest.uid}")
+            if new.parent is None or new.parent.uid != dest.uid:
+                res.fail(f"C12/copy-parent/{tag}/{target}/", f"copy is under {getattr(new.parent, 'uid', None)}, asked {dest.uid}")
                 return res
             # (1) equality
             want = _copy.deepcopy(before)
